@@ -53,6 +53,10 @@ def main(ctx):
     snap = snapshot_part(ctx, quick)
     if snap:
         cov.update(snap)
+    # growth module: the real fastSync object / Downloader against honest and lying peers (FastSync.tla)
+    cov["fast_sync"] = vlib.run_extra(ctx, "extra_fastsync", quick)
+    cov["states"] += cov["fast_sync"].get("fastsync_model_states", 0)
+    cov["transitions"] += cov["fast_sync"].get("fastsync_model_transitions", 0)
     return vlib.finish(ctx, "model_checking", cov, assumptions=[
         "snapshot corruption positions are sampled inside each corruption class except for small archives"])
 
